@@ -191,7 +191,7 @@ class Calls(Interp):
     def check_decorators(self, fi):
         """A decorator may change what a call of the function does (a cache, a retry, a wrapper): only the ones that do not are ignored; any other
         decorator on a function whose BODY the proof uses puts the function outside the subset (exit 2), unless the contract module lists it."""
-        allowed = self.HARMLESS_DECORATORS | set(getattr(self.reg, "transparent_decorators", ()))
+        allowed = self.HARMLESS_DECORATORS | set(getattr(self.reg, "transparent_decorators", ())) | {"lru_cache", "cache"}
         for d in fi.node.decorator_list:
             t = d.func if isinstance(d, ast.Call) else d
             dn = t.id if isinstance(t, ast.Name) else (t.attr if isinstance(t, ast.Attribute) else None)
@@ -202,6 +202,20 @@ class Calls(Interp):
         if self.call_depth > 12:
             raise Unsupported("inlining depth exceeded at %s" % fi.fid)
         self.check_decorators(fi)
+        if any((x.func if isinstance(x, ast.Call) else x) is not None and
+               (((x.func if isinstance(x, ast.Call) else x).id if isinstance((x.func if isinstance(x, ast.Call) else x), ast.Name) else getattr((x.func if isinstance(x, ast.Call) else x), "attr", None)) in ("lru_cache", "cache"))
+               for x in fi.node.decorator_list) and not self.spec_mode:
+            # functools.lru_cache / cache: the body ran on SOME earlier argument tuple that compares (and hashes) equal to this one -- equal is not identical
+            # (True == 1 == 1.0): every object argument is replaced by an arbitrary equal object; the cached result is what the body gives for those
+            new_args = []
+            for a in args:
+                if isinstance(a, VObj):
+                    b = VObj(self.fresh("cached_key", ObjSort))
+                    self.assume(self.equal(a, b))
+                    new_args.append(b)
+                else:
+                    new_args.append(a)
+            args = new_args
         binding = self.bind_params(fi, args, kwargs)
         saved_env, saved_frame = self.st.env, self.frame
         self.st.env = binding
